@@ -1724,3 +1724,52 @@ func TestT29ZlibResetAfterDictStream(t *testing.T) {
 		}
 	}
 }
+
+// 30: C04 - a truncated stream whose Huffman block carries the final-block flag (what zlib and most encoders emit;
+// compress/flate's own writer never does) must give the same bytes however it is delivered. The inflater used to
+// choose its lookup-table flavour by the amount of input visible at header time (reported by the round-7 C04
+// seeding agent).
+func TestT30TruncatedFinalHuffmanBlock(t *testing.T) {
+	r := rand.New(rand.NewSource(30))
+	fails := 0
+	for _, n := range []int{3000, 40000, 64000} {
+		plain := randText(n, int64(n))
+		var comp bytes.Buffer
+		w, _ := stdflate.NewWriter(&comp, stdflate.HuffmanOnly)
+		w.Write(plain)
+		w.Close()
+		s := comp.Bytes()
+		s[0] |= 1
+		for k := 0; k < 300 && fails < 6; k++ {
+			cut := 50 + r.Intn(len(s)-60)
+			run := func(src io.Reader, bufsz int) ([]byte, error) {
+				fr := flate.NewReader(src)
+				var got []byte
+				var err error
+				p := make([]byte, bufsz)
+				for err == nil {
+					var m int
+					m, err = fr.Read(p)
+					got = append(got, p[:m]...)
+				}
+				return got, err
+			}
+			ref, referr := run(bytes.NewReader(s[:cut]), 1<<16)
+			for _, v := range []struct {
+				name string
+				src  io.Reader
+			}{
+				{"1-byte reads", &fixedChunks{data: s[:cut], size: func() int { return 1 }}},
+				{"random chunks", &fixedChunks{data: s[:cut], size: func() int { return 1 + r.Intn(3000) }}},
+				{"bufio 16", bufio.NewReaderSize(bytes.NewReader(s[:cut]), 16)},
+				{"bufio 1MiB", bufio.NewReaderSize(bytes.NewReader(s[:cut]), 1<<20)},
+			} {
+				got, err := run(v.src, 1+r.Intn(9000))
+				if !bytes.Equal(got, ref) || err != referr {
+					fails++
+					t.Errorf("n %d cut %d %s: %d bytes err %v; in one piece %d bytes err %v", n, cut, v.name, len(got), err, len(ref), referr)
+				}
+			}
+		}
+	}
+}
